@@ -132,7 +132,10 @@ theorem appendBatch_J (es : List (LogId × Bytes)) :
     obtain ⟨id, p⟩ := e
     have hr : (Record.append id p).WF := hes (id, p) List.mem_cons_self
     have g := appendAndApply_J fsHas h hr hfs
-    unfold Store.appendBatch
+    by_cases hidx : id.index + 1 = U64
+    · rw [appendBatch_cons_refused_D12 _ _ _ _ _ _ _ hidx]
+      exact ⟨h, by intro e; cases e⟩
+    rw [appendBatch_cons_small_D12 _ _ _ _ _ _ _ hidx]
     rcases hres : s.appendAndApply fsHas (.append id p) with ⟨res, s', e'⟩
     rw [hres] at g
     have ginv := g.inv
@@ -202,6 +205,8 @@ theorem call_J {s : Store} {fs : Fs} {w : Worker} (fsHas : Nat → Bool) (op : O
             exact (appendAndApply_J fsHas h (r := .truncateAfter (some d.id)) hwf hfs).callGood
   | purge upto =>
     simp only [Store.call]
+    split
+    · exact same _ (by intro e; cases e)
     split
     · exact same _ (by intro e; cases e)
     · split
